@@ -462,6 +462,10 @@ class Sim:
             sm = SheetM(sheet.name)
             for table in sheet.tables:
                 tm = TableM(table.name, 0, 0, table.num_header_rows, table.num_header_cols)
+                # what a loaded table looks like (strokes, styles) and whether it owns a real caption object or the
+                # stand-in of a table that never had one is not known to the model
+                tm.opaque_look = True
+                tm.caption_real = False
                 try:
                     # the one documented exception: the library warns that it does not write pivot tables
                     tm.pivot = bool(doc._model.is_a_pivot_table(table._table_id))
